@@ -31,14 +31,14 @@ var controlProg *Program
 var controlErr error
 var controlLoaded bool
 
-func runControls(spec *PropSpec, r *Report, verif string) {
+func runControls(spec *PropSpec, r *Report, controlsDir string) {
 	ctls := controlRegistry[spec.ID]
 	if len(ctls) == 0 {
 		return
 	}
 	if !controlLoaded {
 		controlLoaded = true
-		controlProg, controlErr = Load(filepath.Join(verif, "checker", "controls"), Config{Name: "control", Env: []string{"GOARCH=amd64", "GOOS=linux"}})
+		controlProg, controlErr = Load(filepath.Clean(controlsDir), Config{Name: "control", Env: []string{"GOARCH=amd64", "GOOS=linux"}})
 	}
 	r.cur = "control"
 	if controlErr != nil {
